@@ -434,3 +434,59 @@ Print Assumptions C01_tls12_aead_connection_from_client_hello.
 
 Example C01_fresh_session_premises : ts_server_cc core0 = false /\ ts_client_cc core0 = false /\ hsst true core0 = (0, []) /\ hsst false core0 = (0, []).
 Proof. repeat split. Qed.
+
+(* ---------------- the same whole connection for the other protection classes of SSL 3.0 - TLS 1.2 ---------------- *)
+(* hello_premises s r hv random sid suite es more v ms_s Fc mid  (Proofs/Conn12P.v) collects the premises of
+   C01_tls12_aead_connection that do not depend on the class: the session behind the ClientHello; the record r with the ServerHello
+   (hv, random, sid, suite, compression 0, extensions es) followed by `more`; the version v the session selects; the rest of the
+   server's plaintext flight ms_s and the client's Fc, without further hellos, cut into the records `mid` at any bytes and interleaved
+   in any way.  Each theorem composes, through the class-independent Conn12P.connection_gen, C01_server_hello_parsed,
+   C01_tls12_keys_installed_<class>, C01_plain_handshake_* and the class's session theorem. *)
+Theorem C01_tls12_chacha_connection : forall C, CryptoLaws C -> forall tbl parts keylog
+  s r hv random sid suite es more cs x xs k ms_s Fc mid version evs stc sts stc' sts' rs,
+  hello_premises s r hv random sid suite es more TLS12 ms_s Fc mid ->
+  SuiteParser.split_cipher_suite tbl parts (from_be suite) = Some cs -> algo_of cs = Some ChaCha20Poly1305 ->
+  find_session_secrets keylog s = x :: xs -> derive_session_keys C TLS12 cs (x :: xs) (ts_client_random s) random = Ok (K12 k) ->
+  len version = 2 -> 8 <= len (client_iv k) -> 8 <= len (server_iv k) -> ss_seq stc = 0 -> ss_seq sts = 0 -> Z.of_nat (length evs) <= 2 ^ 64 ->
+  Forall Chacha.ev12_ok evs -> Chacha.ordered false false evs ->
+  Chacha.play12 C (client_key k) (client_iv k) (server_key k) (server_iv k) version stc sts evs = Ok (stc', sts', rs) ->
+  exists s' out, session_run C tbl parts keylog s ((true, r) :: mid ++ rs) = Ok (s', out) /\ data_entries out = flat_map Chacha.app_of evs.
+Proof. exact tls12_chacha_connection. Qed.
+
+Theorem C01_rc4_connection : forall C, CryptoLaws C -> forall tbl parts keylog
+  s r hv random sid suite es more cs x xs k v ms_s Fc mid version evs stc sts stc' sts' rs,
+  hello_premises s r hv random sid suite es more v ms_s Fc mid -> v <> TLS13 ->
+  SuiteParser.split_cipher_suite tbl parts (from_be suite) = Some cs -> algo_of cs = Some ARC4 ->
+  find_session_secrets keylog s = x :: xs -> derive_session_keys C v cs (x :: xs) (ts_client_random s) random = Ok (K12 k) ->
+  5 <= len (client_key k) <= 32 -> 5 <= len (server_key k) <= 32 -> 0 < digest_size (s_mac cs) -> ss_off stc = 0 -> ss_off sts = 0 ->
+  Forall (evG_ok (bytes * bytes) (fun y => len (snd y) = digest_size (s_mac cs))) evs -> orderedG (bytes * bytes) false false evs ->
+  playG version (bytes * bytes) (send_rc4_dir C version (client_key k) (server_key k)) stc sts evs = Ok (stc', sts', rs) ->
+  exists s' out, session_run C tbl parts keylog s ((true, r) :: mid ++ rs) = Ok (s', out) /\ data_entries out = flat_map (appG (bytes * bytes) fst) evs.
+Proof. exact rc4_connection. Qed.
+
+Theorem C01_cbc_explicit_connection : forall C, CryptoLaws C -> forall tbl parts keylog
+  s r hv random sid suite es more cs a x xs k v ms_s Fc mid version evs stc sts stc' sts' rs,
+  hello_premises s r hv random sid suite es more v ms_s Fc mid -> v = TLS12 \/ v = TLS11 ->
+  SuiteParser.split_cipher_suite tbl parts (from_be suite) = Some cs -> algo_of cs = Some a -> get_cipher_type (Some a) = CT_Block ->
+  find_session_secrets keylog s = x :: xs -> derive_session_keys C v cs (x :: xs) (ts_client_random s) random = Ok (K12 k) -> 0 < digest_size (s_mac cs) ->
+  let etm := existsb (fun e => bytes_eqb (fst e) [0; 22]) (exts_dict es) in
+  Forall (evG_ok xe (xe_ok a (digest_size (s_mac cs)))) evs -> orderedG xe false false evs ->
+  playG version xe (send_cbce_dir C version (client_key k) (server_key k) a etm) stc sts evs = Ok (stc', sts', rs) ->
+  exists s' out, session_run C tbl parts keylog s ((true, r) :: mid ++ rs) = Ok (s', out) /\ data_entries out = flat_map (appG xe xe_content) evs.
+Proof. exact cbc_explicit_connection. Qed.
+
+Theorem C01_cbc_chained_connection : forall C, CryptoLaws C -> forall tbl parts keylog
+  s r hv random sid suite es more cs a x xs k v ms_s Fc mid version evs stc sts stc' sts' rs,
+  hello_premises s r hv random sid suite es more v ms_s Fc mid -> v = TLS10 \/ v = SSL30 ->
+  SuiteParser.split_cipher_suite tbl parts (from_be suite) = Some cs -> algo_of cs = Some a -> get_cipher_type (Some a) = CT_Block ->
+  find_session_secrets keylog s = x :: xs -> derive_session_keys C v cs (x :: xs) (ts_client_random s) random = Ok (K12 k) -> 0 < digest_size (s_mac cs) ->
+  ss_last stc = client_iv k -> ss_last sts = server_iv k ->
+  let etm := existsb (fun e => bytes_eqb (fst e) [0; 22]) (exts_dict es) in
+  Forall (evG_ok xc (xc_ok (digest_size (s_mac cs)))) evs -> orderedG xc false false evs ->
+  playG version xc (send_cbcc_dir C version (client_key k) (server_key k) a etm (block_size_of cs)) stc sts evs = Ok (stc', sts', rs) ->
+  exists s' out, session_run C tbl parts keylog s ((true, r) :: mid ++ rs) = Ok (s', out) /\ data_entries out = flat_map (appG xc xc_content) evs.
+Proof. exact cbc_chained_connection. Qed.
+Print Assumptions C01_tls12_chacha_connection.
+Print Assumptions C01_rc4_connection.
+Print Assumptions C01_cbc_explicit_connection.
+Print Assumptions C01_cbc_chained_connection.
